@@ -469,6 +469,47 @@ MUTANTS = [
            lambda f, t: delete_stmt(f, lambda s: isinstance(s, ast.If) and "startswith('_')" in u(s.test))),
     Mutant("C20", "cached-nameserver-returned-unchecked", "C20-R3", GW, "get_nameserver",
            lambda f, t: replace_stmt(f, lambda s: isinstance(s, ast.Try), stmts("return _nameserver"))),
+    # ---- rules derived from the mutation map (DESIGN 10.9)
+    Mutant("C03", "ping-answer-falls-through-to-dispatch", "C03-R4", S, "Daemon.handleRequest",
+           lambda f, t: delete_stmt(f, lambda s: isinstance(s, ast.Return) and s.value is None, count=1)),
+    Mutant("C03", "receive-failure-swallowed", "C03-R4", S, "Daemon.handleRequest",
+           lambda f, t: delete_stmt(f, lambda s: u(s) == "raise x")),
+    Mutant("C12", "peer-address-left-stale-when-getpeername-fails", "C12-R2", S, "Daemon.handleRequest",
+           lambda f, t: delete_stmt(f, lambda s: u(s) == "current_context.client_sock_addr = None")),
+    Mutant("C12", "request-correlation-id-ignored", "C12-R2", S, "Daemon.handleRequest",
+           lambda f, t: set_test(f, lambda e: u(e) == "msg.flags & protocol.FLAGS_CORR_ID", "False")),
+    Mutant("C12", "client-does-not-reset-annotations-before-send", "C12-R5", C, "Proxy._pyroInvoke",
+           lambda f, t: delete_stmt(f, lambda s: u(s) == "current_context.response_annotations = {}")),
+    Mutant("C16", "unknown-object-not-refused", "C16-R3", S, "Daemon.handleRequest",
+           lambda f, t: delete_stmt(f, lambda s: isinstance(s, ast.Raise) and "unknown object" in u(s))),
+    Mutant("C01", "reply-serializer-mismatch-not-refused", "C01-R6", C, "Proxy._pyroInvoke",
+           lambda f, t: delete_stmt(f, lambda s: isinstance(s, ast.Raise) and "SerializeError" in u(s))),
+    Mutant("C20", "raw-wire-response-ignored", "C20-R3", C, "Proxy._pyroInvoke",
+           lambda f, t: delete_stmt(f, lambda s: u(s) == "return msg")),
+    Mutant("C10", "client-ignores-stream-flag", "C10-R6", C, "Proxy._pyroInvoke",
+           lambda f, t: set_test(f, lambda e: u(e) == "msg.flags & protocol.FLAGS_ITEMSTREAMRESULT", "False")),
+    Mutant("C08", "multiplex-refused-connection-left-open", "C08-R3", MX, "SocketServer_Multiplex._handleConnection",
+           lambda f, t: delete_stmt(f, lambda s: u(s) == "conn.close()")),
+    Mutant("C08", "handshake-answer-header-keeps-default-serializer", "C08-R4", S, "Daemon._handshake",
+           lambda f, t: delete_stmt(f, lambda s: u(s) == "serializer_id = msg.serializer_id")),
+    Mutant("C08", "handshake-answer-not-sent", "C08-R4", S, "Daemon._handshake",
+           lambda f, t: delete_stmt(f, lambda s: u(s) == "conn.send(msg.data)")),
+    Mutant("C17", "short-waitall-read-not-counted", "C17-R3", SU, "receive_data",
+           lambda f, t: delete_stmt(f, lambda s: u(s) == "msglen = len(chunk)")),
+    Mutant("C17", "waitall-read-repeated-after-short-read", "C17-R1", SU, "receive_data",
+           lambda f, t: delete_stmt(f, lambda s: isinstance(s, ast.Break), count=1), also=("C06",)),
+    Mutant("C05", "handler-variable-not-initialised", "C05-R8", S, "Daemon.handleRequest",
+           lambda f, t: delete_stmt(f, lambda s: u(s) == "isCallback = False"), also=("C07",)),
+    Mutant("C09", "registered-class-dispatched-without-instance", "C09-R5", S, "Daemon.handleRequest",
+           lambda f, t: set_test(f, lambda e: u(e) == "inspect.isclass(obj)", "False")),
+    Mutant("C10", "call-result-bypasses-streamResponse", "C10-R3", S, "Daemon.handleRequest",
+           lambda f, t: delete_stmt(f, lambda s: "_streamResponse(" in u(s) and isinstance(s, ast.Assign), count=1)),
+    Mutant("C06", "annotation-id-width-not-checked", "C06-R3", P, "SendingMessage.__init__",
+           lambda f, t: delete_stmt(f, lambda s: isinstance(s, ast.If) and u(s.test) == "len(k) != 4")),
+    Mutant("C06", "annotation-value-type-not-checked", "C06-R3", P, "SendingMessage.__init__",
+           lambda f, t: delete_stmt(f, lambda s: isinstance(s, ast.If) and "isinstance(v" in u(s.test))),
+    Mutant("C16", "instances-get-no-auto-proxy-hook", "C16-R5", S, "Daemon.register",
+           lambda f, t: replace_stmt(f, lambda s: isinstance(s, ast.Expr) and "register_type_replacement(type(" in u(s), [ast.Pass()])),
     Mutant("C01", "marshal-call-envelope-swapped", "C01-R7", SER, "MarshalSerializer.dumpsCall",
            lambda f, t: replace_expr(f, lambda e: u(e) == "(obj, method, vargs, kwargs)", "(obj, method, kwargs, vargs)")),
     Mutant("C01", "json-call-envelope-key-mismatch", "C01-R7", SER, "JsonSerializer.loadsCall",
